@@ -5,7 +5,9 @@
     * `.conn a b` moves the pins of b's wire onto a's wire and remembers b as an alias of a
       (one-step alias table), so earlier and later `formal=actual` references to either net meet;
     * `.blackbox` disconnects the pins before it drops the model's cables;
-    * the provisional instance name `<model>_instance_<k>` skips names already taken;
+    * the provisional instance name `<model>_instance_<k>` skips names already taken; a net-derived
+      name (`.names`/`.latch` output, driven net of a `.subckt`) that another instance already
+      carries is not applied (the instance keeps / gets the provisional name);
     * a formal that widens a port of an already instanced model gives every instance the new pin;
     * `.latch` adds the ports it needs to `generic-latch` when an earlier latch had fewer fields.
   No Mathlib.
@@ -192,7 +194,8 @@ def siblingNames (st : St) (parent : String) (except : Nat) : List String :=
 def updInst (st : St) (idx : Nat) (f : Inst → Inst) : St :=
   { st with insts := st.insts.zipIdx.map (fun (p : Inst × Nat) => if p.2 = idx then f p.1 else p.1) }
 
-def rename (st : St) (idx : Nat) (parent n : String) : Except Err St :=
+/-- `.cname`: a name another instance of the model already carries is a `ValueError` -/
+def renameStrict (st : St) (idx : Nat) (parent n : String) : Except Err St :=
   if n ∈ siblingNames st parent idx then Except.error (Err.value "naming conflict")
   else Except.ok (updInst st idx (fun i => { i with name := n }))
 
@@ -218,6 +221,13 @@ def assignDefault (st : St) (idx : Nat) (parent model : String) : St :=
   let k := firstFree taken (defaultName model) (taken.length + 1) start
   let st := { st with counters := setCounter st.counters model k }
   updInst st idx (fun i => { i with name := defaultName model k })
+
+/-- net-derived name of a `.names` / `.latch` instance (repaired: when another instance already
+    carries it -- two drivers on one net -- the instance gets the provisional name instead) -/
+def rename (st : St) (idx : Nat) (parent n : String) : Except Err St :=
+  if n ∈ siblingNames st parent idx then
+    Except.ok (assignDefault st idx parent (match st.insts[idx]? with | some i => i.model | none => ""))
+  else Except.ok (updInst st idx (fun i => { i with name := n }))
 
 def allPins (d : DefD) : List (String × Nat) :=
   d.ports.flatMap (fun p => bitsFrom p.name 0 p.width)
@@ -251,7 +261,7 @@ def applyInfo (st : St) (idx : Nat) (parent : String) : List InfoStmt → Except
   | [] => pure st
   | InfoStmt.cname n :: r => do
       let st := updInst st idx (fun i => { i with cname := some n })
-      let st ← rename st idx parent n
+      let st ← renameStrict st idx parent n
       applyInfo st idx parent r
   | InfoStmt.attr k v :: r => applyInfo (updInst st idx (fun i => { i with attrs := dictSet i.attrs k v })) idx parent r
   | InfoStmt.param k v :: r => applyInfo (updInst st idx (fun i => { i with params := dictSet i.params k v })) idx parent r
@@ -438,7 +448,7 @@ def renameNet (n : BNet) (idx : Nat) (nm : String) : Except Err BNet :=
   | none => pure n
   | some me =>
     let others := (n.insts.zipIdx.filter (fun (p : Inst × Nat) => p.1.parent = me.parent && p.2 ≠ idx)).map (fun p => p.1.name)
-    if nm ∈ others then Except.error (Err.value "naming conflict")
+    if nm ∈ others then pure n      -- repaired: the net-derived name is taken, keep the old name
     else pure { n with insts := n.insts.zipIdx.map (fun (p : Inst × Nat) => if p.2 = idx then { p.1 with name := nm } else p.1) }
 
 def applyConvention (n : BNet) : List Nat → Except Err BNet
